@@ -1,7 +1,26 @@
 (* C02 — CometBFT's validator set always equals the chain's own bonded set and powers. *)
 From stdpp Require Import gmap.
 Require Import Model.Base Model.Validate Model.State Model.Staking Model.Slashing Model.Poa Model.App.
-Require Import proofs.Inv proofs.InvIdx proofs.InvPres proofs.InvMsgs proofs.InvHistory.
+Require Import proofs.Inv proofs.InvIdx proofs.InvPres proofs.InvMsgs proofs.InvHistory proofs.InvComet.
+
+(* after every block of every history that has not halted — any number of blocks, any in-block order of CreateValidator,
+   SetPower safe/unsafe, RemoveValidator, RemovePending, UpdateStakingParams, unjail, any downtime pattern, empty blocks,
+   from every genesis validator set — the set obtained by applying each block's updates to the previous set is exactly
+   the chain's last validator powers, keyed by the validators' consensus keys: what the PoA consensus-power query
+   reports for a validator is what CometBFT holds for it, and validators without a last power (pending, removed, jailed,
+   unbonding) are absent from CometBFT's set *)
+Theorem C02_comet_set_is_last_powers : forall g bs,
+  wf_genesis g ->
+  let w := run_world (init_world g) bs in
+  w_halted w = None ->
+  forall k p, c_next (w_comet w) !! k = Some p <->
+              exists id v, vals (stk (w_chain w)) !! id = Some v /\ v_cons v = k /\ last_pow (stk (w_chain w)) !! id = Some p.
+Proof. exact reachable_comet_rel. Qed.
+
+(* whenever CometBFT accepts a block's updates, its new set is the old one with the updates applied one by one *)
+Theorem C02_comet_apply_is_sequential : forall vs upd nn,
+  List.NoDup (map fst upd) -> comet_apply vs upd = inl nn -> nn = apply_updates vs upd.
+Proof. exact comet_apply_is_apply_updates. Qed.
 
 (* what makes x/staking's EndBlocker report the right set: in every reachable state each validator owns at most
    one power-index entry, it is at the validator's token power, and jailed validators own none (this is the
